@@ -7,9 +7,11 @@ EXTENDS Naturals, Sequences, TLC, TLCExt, Json, IOUtils
 Rec == ndJsonDeserialize(IOEnv.TRACE)
 
 MismatchInit == TLCSet(1, <<>>)
-NoteMismatch(i) == TLCSet(1, Append(TLCGet(1), i))
+\* a mismatch is <<event index, class>>; the class attributes it to a property
+NoteMismatch(i, cls) == TLCSet(1, Append(TLCGet(1), <<i, cls>>))
 \* non-blocking match: the event is always consumed; a failed match is recorded
-Check(ok, i) == IF ok THEN TRUE ELSE NoteMismatch(i)
+CheckC(ok, i, cls) == IF ok THEN TRUE ELSE NoteMismatch(i, cls)
+Check(ok, i) == CheckC(ok, i, "X")
 
 Report(consumed) ==
   LET m == TLCGet(1) IN
